@@ -9,6 +9,7 @@ import datetime
 import json
 import multiprocessing
 import os
+import re
 import sys
 import time
 
@@ -250,22 +251,32 @@ def main():
     t0 = time.time()
     verdict = C.Verdict(CID, MATCHERS)
     build_err = None
+    build_log = ""
     try:
         build_ok, build_log = C.ensure_built(["rr"], VO)
     except C.BuildError as ex:
         build_err = ex
+        build_log = ex.log or ""
+    # translators of the modelled source (gen_rr_init / gen_rr_masks / gen_rr_iter, run by common.regenerate):
+    # an abort poisons the generated file, the C01_gen_* theorems at the end of props/C01.v then fail
+    translators = [{"script": m.group(1), "status": "failed"}
+                   for m in re.finditer(r"GENERATOR FAILED: ([^\s]+)", build_log) if "gen_rr_" in m.group(1)]
+    for m in re.finditer(r"TRANSLATE-ERROR: ([^\n]*)", build_log):
+        translators.append({"status": "translate-error", "message": m.group(1)[:300]})
     if build_err is not None:
         props = {"obligations": 0, "discharged": 0, "theorems": [], "assumptions": {},
                  "cmd": "coqc props/C01.v", "log": build_err.log, "ok": False}
         try:
             src = open(os.path.join(C.COQ, "props", "C01.v")).read()
-            import re
             props["theorems"] = re.findall(r"^\s*Theorem\s+([A-Za-z0-9_']+)", src, flags=re.M)
             props["obligations"] = len(props["theorems"])
         except OSError:
             pass
     else:
         props = C.compile_props(CID)
+        if not props["ok"]:
+            for m in re.finditer(r"TRANSLATE-ERROR: ([^\n]*)", props["log"]):
+                translators.append({"status": "translate-error", "message": m.group(1)[:300]})
 
     t_built = time.time()
     have_oracle = os.path.exists(ORACLE_EXE)
@@ -310,8 +321,23 @@ def main():
                            "log_tail": (build_err.log if build_err else "")[-2000:]}, concrete=False)
 
     if not props["ok"] and not verdict.violations:
-        verdict.violation({"kind": "broken proof obligation", "theorem_file": "coq/props/C01.v",
-                           "theorems": props["theorems"], "discharged": props["discharged"],
+        # props/C01.v is compiled top to bottom: the first theorem without a `Print Assumptions` block is the
+        # one that broke.  The C01_gen_* theorems (generated code = hand model, appended LAST by the translators'
+        # builders) break when a translator aborts (coq/gen/*Gen.v poisoned by common.regenerate) or when the
+        # regenerated code no longer equals the model: the source under test changed in a modelled function and
+        # the three-way comparison above found no failing input.
+        broken = props["theorems"][props["discharged"]:]
+        first = broken[0] if broken else None
+        gen = bool(first) and first.startswith("C01_gen_")
+        verdict.violation({"kind": ("translator abort / broken generated-code obligation (%s)" % first) if gen
+                                   else "broken proof obligation" + (" (%s)" % first if first else ""),
+                           "theorem_file": "coq/props/C01.v", "first_broken": first, "translator": translators,
+                           "broken": broken[:40], "discharged": props["discharged"],
+                           "obligations": props["obligations"],
+                           "what": ("the code generated from the source under test is no longer proved equal to the "
+                                    "hand model (or the translator refused the source); no failing input found by "
+                                    "the correspondence run" if gen else
+                                    "coq/props/C01.v does not compile up to this theorem; no failing input found"),
                            "input": None, "log_tail": props["log"][-3000:]}, concrete=False)
 
     rc = verdict.finish()
@@ -379,8 +405,13 @@ def main():
                     "representable day that satisfies the rule, with a time of the rule's time set, >= dtstart",
                 "C01_rrule_complete_headline_partial": "coarse_guard_all for the larger fuel: a run that stopped for a "
                     "reason other than fuel has yielded the specification's whole sequence (up to limit)",
-                "C01_rrule_iter_correct_subdaily_stream_all_partial": "sfam_all: HOURLY/MINUTELY/SECONDLY, no "
-                    "BYSETPOS, no BYEASTER, BYWEEKNO in range: same stream",
+                "C01_rrule_iter_correct_subdaily_headline_partial": "sfam_sa: EVERY HOURLY/MINUTELY/SECONDLY rule of "
+                    "the domain with BYWEEKNO in range and no BYEASTER (BYSETPOS and numeric BYDAY prefixes "
+                    "included): model and specification enumerate the same stream; equality at equal fuel is false "
+                    "for sub-daily FREQ",
+                "C01_subdaily_strictly_increasing_headline_partial": "sfam_sa",
+                "C01_subdaily_self_stop_is_end_partial": "sfam_sa: a self-stopped run (incl. the sub-daily advance's "
+                    "ValueError/TypeError) has yielded the complete stream",
                 "C01_rrule_iter_correct_coarse_partial": "the same with BYDAY without numeric prefix under WEEKLY/"
                     "DAILY (coarse_guard), FREQ YEARLY..DAILY, equal fuel: spec_wf, BYWEEKNO "
                     "in -53..53, no BYEASTER (not an RFC part); BYSETPOS, COUNT, UNTIL, interval free; YEARLY and "
@@ -409,19 +440,19 @@ def main():
             "not_proved_correspondence_only": [
                 "rrule_iter_correct (model = spec for every rule in spec_wf): proved for the families above; NOT "
                 "proved: BYEASTER outside plain YEARLY rules without BYSETPOS (dateutil extension, not RFC), "
-                "BYSETPOS for sub-daily FREQ, the cut-off last week of year 9999 (WEEKLY), BYWEEKNO members "
-                "beyond +-53 (not RFC)",
-                "strictly increasing / no duplicates outside coarse_guard and for sub-daily FREQ (checked on every "
-                "yielded sequence)",
+                "the cut-off last week of year 9999 (WEEKLY), BYWEEKNO members beyond +-53 (not RFC)",
+                "strictly increasing / no duplicates outside the two headline guards (checked on every yielded "
+                "sequence)",
                 "no IndexError / only ValueError outside coarse_guard (inside: C01_rrule_no_exception_partial; "
                 "otherwise proved per mask builder and for rebuild, observed exception classes are checked)"]},
         "refuted_theorems": [t for t in props["theorems"] if "refuted" in t],
-        "differential_only": ["BYEASTER outside YEARLY, BYSETPOS with sub-daily FREQ",
+        "differential_only": ["BYEASTER outside plain YEARLY rules without BYSETPOS",
                               "WEEKLY + BYSETPOS whose first week begins before 0001-01-01 (positions would count "
                               "unrepresentable days): model vs implementation only",
                               "rules outside spec_wf (empty BY-lists, BYMONTHDAY 0, out-of-range time parts): "
                               "model vs implementation only"],
         "known_findings_hit": verdict.known_hits,
+        "translator": translators or "all generators ran (see assumptions: gen files)",
     }
     C.write_evidence(CID, tier, t0, props, cov,
                      ["CPython datetime/calendar modelled by coq/base/Cal.v (date validity, ordinals, weekday)",
